@@ -267,6 +267,8 @@ pub fn main(tier: Tier, _replay: Option<String>) -> i32 {
     sweep(&mut rep);
     adversarial(&mut rep, &tier);
     nft_histories(&mut rep, &tier);
+    // (6) reorganisation attempts that fail part-way
+    super::c04::supply_after_failed_reorgs(&mut rep, &tier);
     rep.sample(json!({"script": format!("{:?}", ss[1].rounds), "g": ss[1].g}));
     rep.finish()
 }
